@@ -716,7 +716,12 @@ impl JaegerEnds {
 /// The agent is away while a first batch is sent (its datagram goes nowhere, and on a connected
 /// socket the ICMP answer would be remembered), then it is back: the next batch must arrive.
 fn jaeger_agent_restart(st: &mut St, r: &mut Rng) {
-    for round in 0..3 {
+    // no re-sending here (a transient failure of the first report() after the outage is exactly
+    // what is looked for); instead the whole scenario runs several times and only "nothing at all
+    // arrived, every time" counts
+    // per number of batches sent during the outage: (rounds, rounds in which nothing arrived)
+    let mut by_kind = [(0usize, 0usize); 2];
+    for round in 0..6 {
         let tmp = match UdpSocket::bind("127.0.0.1:0") {
             Ok(s) => s,
             Err(_) => return,
@@ -724,7 +729,7 @@ fn jaeger_agent_restart(st: &mut St, r: &mut Rng) {
         let addr = tmp.local_addr().unwrap();
         drop(tmp);
         let mut rep = fastrace_jaeger::JaegerReporter::new(addr, SERVICE).unwrap();
-        for _ in 0..(1 + round) {
+        for _ in 0..(1 + round % 2) {
             rep.report(vec![rand_record(r, false)]);
             std::thread::sleep(Duration::from_millis(15));
         }
@@ -735,10 +740,27 @@ fn jaeger_agent_restart(st: &mut St, r: &mut Rng) {
                 continue;
             }
         };
-        let mut end = JaegerEnd { sink, rep };
         let batch: Vec<SpanRecord> = (0..(2 + r.below(6))).map(|_| rand_record(r, false)).collect();
-        jaeger_batch(st, &mut end, batch, true, &format!("first batch after the agent came back (round {})", round));
+        rep.report(batch.clone());
+        let grams = sink.drain();
+        by_kind[round % 2].0 += 1;
+        st.evals += 1;
         st.stat("agent_restart_rounds", 1);
+        if grams.is_empty() {
+            by_kind[round % 2].1 += 1;
+            continue;
+        }
+        // what arrived is checked like any other batch would be (on a fresh pass through the
+        // same reporter, which must also still work)
+        let mut end = JaegerEnd { sink, rep };
+        jaeger_batch(st, &mut end, batch, true, &format!("batch after the agent came back (round {})", round));
+    }
+    for (k, (rounds, nothing)) in by_kind.iter().enumerate() {
+        if *rounds >= 2 && nothing == rounds {
+            st.viol("batch-lost-after-agent-outage", format!("in {} of {} rounds the first batch reported after the agent came back (it was away while {} earlier batch(es) were sent) did not produce a single datagram", nothing, rounds, 1 + k));
+        } else if *nothing > 0 {
+            st.inconclusive.push(format!("agent restart ({} batch(es) during the outage): nothing arrived in {} of {} rounds", 1 + k, nothing, rounds));
+        }
     }
 }
 
@@ -1145,7 +1167,23 @@ fn run_datadog(st: &mut St, r: &mut Rng, n: usize, deadline: Instant) {
         let reqs = std::mem::take(&mut *sink.got.lock().unwrap());
         if reqs.len() != 1 {
             if reqs.is_empty() {
-                st.inconclusive.push(format!("datadog batch #{}: no request arrived", k));
+                // the listener is reachable (probed with a plain connection): a reporter that
+                // sends nothing for a non-empty batch, twice more, has lost the batch
+                let mut arrived = false;
+                for _ in 0..2 {
+                    rep.report(batch.clone());
+                    std::thread::sleep(Duration::from_millis(50));
+                    if !std::mem::take(&mut *sink.got.lock().unwrap()).is_empty() {
+                        arrived = true;
+                        break;
+                    }
+                }
+                let reachable = std::net::TcpStream::connect_timeout(&sink.addr, Duration::from_secs(2)).is_ok();
+                if !arrived && reachable {
+                    st.viol("request-missing", format!("datadog batch #{} ({} records) to the agent at {}: no request arrived in 3 report() calls although the agent accepts connections", k, batch.len(), sink.addr));
+                } else {
+                    st.inconclusive.push(format!("datadog batch #{}: no request arrived (agent reachable: {})", k, reachable));
+                }
             } else {
                 st.viol("request-count", format!("datadog batch #{}: {} requests for one report() call", k, reqs.len()));
             }
